@@ -196,7 +196,10 @@ Definition ref_batch (t : N) (cs : list rchild) (cl : N) (tail : bytes) : bytes 
     output (2) panic | (0) error | (1 fields reencoded)
       QUERY   fields = (query cl params)
       EXECUTE fields = (id rmid cl params)
-      BATCH   fields = (type ((kind idbytes values)...) cl params) *)
+      BATCH   fields = (type ((kind idbytes values)...) cl params)
+    The input's 6th element is an optional custom-payload prefix the harness places before
+    the message in the same body reader (frame-level shape); the message decoders must be
+    insensitive to it, so the model ignores it.  The 4th output element is EncodedLength. *)
 Definition child_val (c : pchild) : val :=
   match ch_id c with
   | QStr q => L [I 0; B q; B (ch_values c)]
@@ -209,17 +212,17 @@ Definition run_c11 (input : val) : val :=
   let body := vB (nthv 2 input) in
   if op =? 7 then
     match decode_query body with
-    | Ok m => L [I 1; L [B (q_query m); IN (q_cl m); B (q_params m)]; B (encode_query m)]
+    | Ok m => L [I 1; L [B (q_query m); IN (q_cl m); B (q_params m)]; B (encode_query m); Inat (length (encode_query m))]
     | Panic _ => L [I 2] | _ => L [I 0]
     end
   else if op =? 10 then
     match decode_execute v body with
-    | Ok m => L [I 1; L [B (x_id m); B (x_rmid m); IN (x_cl m); B (x_params m)]; B (encode_execute v m)]
+    | Ok m => L [I 1; L [B (x_id m); B (x_rmid m); IN (x_cl m); B (x_params m)]; B (encode_execute v m); Inat (length (encode_execute v m))]
     | Panic _ => L [I 2] | _ => L [I 0]
     end
   else
     match decode_batch body with
-    | Ok m => L [I 1; L [IN (b_type m); L (map child_val (b_children m)); IN (b_cl m); B (b_params m)]; B (encode_batch m)]
+    | Ok m => L [I 1; L [IN (b_type m); L (map child_val (b_children m)); IN (b_cl m); B (b_params m)]; B (encode_batch m); Inat (length (encode_batch m))]
     | Panic _ => L [I 2] | _ => L [I 0]
     end.
 
@@ -234,4 +237,5 @@ Definition holds_c11 (input output : val) : val :=
   else if negb (Z.eqb status 1) then B (str "valid-body-rejected")
   else if negb (val_eqb (nthv 1 output) (nthv 4 input)) then B (str "fields-differ-from-reference")
   else if negb (val_eqb (nthv 2 output) (nthv 2 input)) then B (str "reencode-differs")
+  else if negb (Z.eqb (vZ (nthv 3 output)) (Z.of_nat (length (vB (nthv 2 input))))) then B (str "encoded-length-differs")
   else B [].
